@@ -89,6 +89,32 @@ def run(chk):
         q = list(xs) + [rng.uniform(xs[0], xs[-1]) for _ in range(3)] + [xs[0] * 0.99, xs[-1] * 1.01]
         lines.append('num spline %d %s %s %s' % (n, ' '.join(vlib.d2h(x) for x in xs), ' '.join(vlib.d2h(y) for y in ys), ' '.join(vlib.d2h(x) for x in q)))
         meta.append(('spline', n, xs, ys, q, (a, b) if lin else None))
+    # "nice" data: small integers on an integer grid, with a change of sign, asked at eighths of the spacing and within a few ulps of
+    # them - where intermediate interpolants of the Bulirsch-Stoer recurrence have their poles although the final one is a straight line
+    import math
+    for _ in range(N // 3):
+        n = rng.randint(3, 7)
+        m = rng.randint(3, min(n, 5))
+        k0 = rng.randint(1, 8)
+        xs = [1e9 * (k0 + i) for i in range(n)]
+        b_ = rng.choice([-3, -2, -1, 1, 2, 3])
+        cross = k0 + rng.randint(0, n - 2) + rng.choice([0.5, 0.25, 0.75, 0.5])
+        a_ = -b_ * cross
+        f = lambda x, a_=a_, b_=b_: complex(a_ + b_ * (x / 1e9))
+        ys = [f(x) for x in xs]
+        base = ' '.join(vlib.d2h(x) for x in xs) + ' ' + ' '.join(vlib.c2h(y) for y in ys)
+        qs = []
+        for _q in range(6):
+            x = xs[rng.randrange(n - 1)] + rng.randint(1, 7) / 8.0 * 1e9
+            for u in (0, 0, rng.randint(-3, 3)):
+                xq = x
+                for _s in range(abs(u)):
+                    xq = math.nextafter(xq, math.inf if u > 0 else -math.inf)
+                qs.append(xq)
+        for x in qs:
+            h = rng.randint(-2, n + 1)
+            lines.append('num rfi %d %d %d %s %s' % (n, m, h, vlib.d2h(x), base))
+            meta.append(('rfi', 'between', x, None, ys, 'linear', f, n, m, len(lines) - 1))
     cout, crc, cerr = vlib.run_lines(exe, lines)
     if crc != 0 or len(cout) != len(lines):
         bad = lines[min(len(cout), len(lines) - 1)]
@@ -148,8 +174,15 @@ def run(chk):
                 else:
                     chk.count('spline_linear_ok')
             chk.distinct.add(lines[idx][:60])
-        if mout is not None and not vlib.same_line(' '.join(cout[idx].split()[:3]) if mt[0] == 'rfi' else cout[idx],
-                                                   ' '.join(mout[idx].split()[:3]) if mt[0] == 'rfi' else mout[idx], 1e-7):
+        def rfi_same(a, b, ys_):
+            # interpolated values agree relative to the size of the data (a value near a zero of the function is compared absolutely)
+            wa, wb = a.split(), b.split()
+            if wa[0] != wb[0] or wa[0] != 'ok' or len(wa) < 3 or len(wb) < 3:
+                return a.split()[:1] == b.split()[:1] and wa[0] != 'ok'
+            va, vb = vlib.hs2c(wa[1:3])[0], vlib.hs2c(wb[1:3])[0]
+            sc_ = max([abs(y_) for y_ in ys_] + [abs(va), 1e-300])
+            return abs(va - vb) <= 1e-7 * sc_
+        if mout is not None and not (rfi_same(cout[idx], mout[idx], mt[4]) if mt[0] == 'rfi' else vlib.same_line(cout[idx], mout[idx], 1e-7)):
             nmis += 1
             if nmis <= 3:
                 broken.append('correspondence: model and C differ on `%s`\n  C: %s\n  M: %s' % (lines[idx][:90], cout[idx][:160], mout[idx][:160]))
